@@ -11,14 +11,16 @@ LEVEL = "exploration"
 RULE = (
     "A case = (scenario, schedule).  Scenarios: 2-3 threads each repeating 'activate own probe / overlay -> call the "
     "shared functions -> deactivate' with selectors overlapping on functions and variables (same selector twice; f > a "
-    "vs f(a) > g > u; g > u vs f > g > u; three threads; raw autotool+BaseOverlay vs probing), first activation cold "
+    "vs f(a) > g > u; g > u vs f > g > u; three threads; raw autotool+BaseOverlay vs probing; a thread that only calls the "
+    "functions while another activates and deactivates probes on them), first activation cold "
     "(variant must be compiled) or warm.  A deterministic scheduler built on sys.settrace runs exactly one thread at a "
     "time and places thread switches at line events of the activation / deactivation / call-entry code of "
     "ptera/transform.py, overlay.py, probe.py (push pop get _apply transform_for transform _tooler _untooler autotool "
     "BaseOverlay.__enter__/__exit__ proceed.__enter__/__exit__ HandlerCollection.proceed Probe._enter/_exit ...) and of "
     "the shared functions, and at opcode (attribute load/store) granularity inside push/pop/_apply.  Quick: every "
-    "single-preemption schedule at line granularity for every scenario and start order + random schedules with <= 3 "
-    "preemptions; thorough adds opcode-granularity single preemptions, two-preemption schedules and three-thread random "
+    "single-preemption schedule at line granularity for every scenario and start order, two-preemption schedules whose "
+    "second hand-over happens at the moment a thread enters a shared function (frame created, first line not run), and "
+    "random schedules with <= 3 preemptions; thorough adds opcode-granularity single preemptions, two-preemption schedules and three-thread random "
     "schedules.  Oracle per schedule: every thread's events == its sequential reference, all delivered on the owning "
     "thread, return values == plain results, no exception; after join every function runs its original code object, "
     "instrument_count == 0 and all capture counters are 0.  distinct_nontrivial = distinct interleavings (hash of the "
@@ -63,6 +65,7 @@ SCENARIOS = {
     "overlapping-captures": [[("probe", "f > a", "f", 1)] * 2, [("probe", "f(a) > g > u", "f", 5)] * 2],
     "nested-vs-direct": [[("probe", "g > u", "g", 2), ("probe", "g > u", "f", 3)], [("probe", "f > g > u", "f", 7)] * 2],
     "overlay-vs-probe": [[("overlay", "f(x) > b", "f", 1)] * 2, [("probe", "f > b", "f", 5), ("probe", "h > w", "h", 9)]],
+    "plain-caller-vs-activator": [[("call", "", "f", 1), ("call", "", "g", 4), ("call", "", "f", 2)], [("probe", "f(a) > g > u", "f", 5)] * 2],
     "three-threads": [[("probe", "f > a", "f", 1)], [("probe", "f > b", "f", 5)], [("probe", "g > u", "f", 9)]],
 }
 
@@ -104,7 +107,9 @@ def make_body(ns, script):
         out = []
         for kind, sel, fn, arg in script:
             evs = []
-            if kind == "probe":
+            if kind == "call":
+                r = ns[fn](arg)
+            elif kind == "probe":
                 with probing(sel, env=ns) as p:
                     p.subscribe(lambda d, evs=evs: evs.append((dict(d), threading.get_ident() == me)))
                     r = ns[fn](arg)
@@ -135,7 +140,7 @@ def check_outcome(ns, scenario, run, orig):
         for (kind, sel, fn, arg), (r, evs) in zip(script, got):
             if r != ref_result(fn, arg):
                 probs.append({"thread": tid, "problem": f"{fn}({arg}) returned {r}, sequentially {ref_result(fn, arg)}"})
-            exp = ref_events(sel, fn, arg)
+            exp = ref_events(sel, fn, arg) if kind != "call" else []
             if [e for e, _ in evs] != exp:
                 probs.append({"thread": tid, "problem": f"probe {sel!r} around {fn}({arg}) received {[e for e, _ in evs]}, sequentially {exp}"})
             if not all(own for _, own in evs):
@@ -172,6 +177,8 @@ class Env:
 
             for script in scenario:
                 for kind, sel, fn, arg in script:
+                    if kind == "call":
+                        continue
                     with probing(sel, env=ns):
                         pass
         return mod, ns, orig
@@ -181,7 +188,7 @@ class Env:
         mod, ns, orig = self.fresh(warm, scenario)
         files = set(self.files) | {mod.__file__}
         bodies = [make_body(ns, s) for s in scenario]
-        run = sched.run_schedule(len(scenario), bodies, schedule, files, HOT, OPCODE_FNS if opcode else (), self.registry, timeout=30, labels=labels)
+        run = sched.run_schedule(len(scenario), bodies, schedule, files, HOT, OPCODE_FNS if opcode else (), self.registry, timeout=30, labels=labels, entry_fns=("f", "g", "h"))
         probs = check_outcome(ns, scenario, run, orig)
         from ptera.overlay import HandlerCollection
 
@@ -218,6 +225,22 @@ def run_shard(spec):
                     # after the preemption, also try handing over to the third thread later
                     pass
                 run_one(env, name, warm, opcode, schedule, res, digests, known)
+    elif spec["part"] == "entry":
+        # two preemptions: one anywhere (coarse stride), then a hand-over at the moment a thread
+        # ENTERS a shared function (frame created on the currently installed variant, first line
+        # not yet run) - the other thread then changes the installed variant underneath it
+        start = spec["start"]
+        base, probs = env.run(name, warm, {"start": start}, opcode)
+        K = base["steps"]
+        res.counters["max_steps"] = K
+        others = [t for t in range(nthreads) if t != start]
+        for k in range(1 + spec["offset"], K + 1, spec["stride"]):
+            for tid in range(nthreads):
+                for fn in ("f", "g"):
+                    for nth in (1, 2):
+                        to = [t for t in range(nthreads) if t != tid][0]
+                        schedule = {"start": start, "preempt": {k: others[0]}, "label_preempt": [[tid, fn, nth, to]]}
+                        run_one(env, name, warm, opcode, schedule, res, digests, known)
     else:
         s0, cnt = spec["range"]
         base, _ = env.run(name, warm, {"start": 0}, opcode)
@@ -269,6 +292,14 @@ def plan(tier, seed, known):
                 for lo, hi in (slices if not warm else [(0, 0.5), (0.5, 1)]):
                     specs.append({"part": "single", "scenario": name, "warm": warm, "start": start, "krange": [lo, hi]})
             specs.append({"part": "rand", "scenario": name, "warm": warm, "range": [0, 150 if tier == "quick" else 2500], "maxpre": 3})
+            if n == 2:
+                for start in (0, 1):
+                    if tier == "quick":
+                        if not warm:
+                            specs.append({"part": "entry", "scenario": name, "warm": warm, "start": start, "stride": 12, "offset": 0})
+                    else:
+                        for off in range(4):
+                            specs.append({"part": "entry", "scenario": name, "warm": warm, "start": start, "stride": 4, "offset": off})
     if tier == "thorough":
         for name in ("same-selector", "overlapping-captures", "overlay-vs-probe"):
             for warm in (False, True):
